@@ -7,7 +7,8 @@
                  { <pos> <hval> }* { <name> <to> <hard0/1> }* { <name> }* }*
               INFO <n> { - | <time> <bad> <rehash> <just> }*
    base     : BASE <n> { <name id> <basename id> }*
-   usable   : USE <n> { 0|1 }*                         (has_past_inodes per disk position)
+   usable   : USE <n> { 0|1 }*                         (has_past_inodes per disk position, decided by the harness)
+              UU <n> { <recorded uuid id> <reported uuid id> }*   (0 = empty; has_past_inodes is decided by the model)
    listing  : L <ndisks> { <n> { <f|s|d> <name> <size> <mtime> <nsec> <inode> <nlink> <to> <key> }* }*
    fs       : FS <ndisks> { X- | X <nfiles> { <name> <size> <mtime> <nsec> <inode> <nblk> <id>* }* }*
    hashes   : H <n> { <bid> <len> <hval> }*            (anything absent hashes to a fresh value 1000000+bid*4096+len)
@@ -99,8 +100,10 @@ let parse_base t =
   fun (x : n) -> match Hashtbl.find_opt tbl (int_of_n x) with Some b -> n_of_int b | None -> x
 
 let parse_usable t =
-  expect t "USE";
-  let n = nint t in rep n (fun () -> nint t <> 0)
+  match next t with
+  | "USE" -> let n = nint t in rep n (fun () -> nint t <> 0)
+  | "UU" -> let n = nint t in rep n (fun () -> let r = nint t in let c = nint t in has_past_inodes false (n_of_int r) (n_of_int c))
+  | s -> failwith ("usable " ^ s)
 
 let parse_listing t =
   expect t "L";
